@@ -18,6 +18,7 @@ import (
 	"metacontroller/pkg/internal/verif/mc"
 	"metacontroller/pkg/internal/verif/sim"
 	"metacontroller/pkg/internal/verif/vcache"
+	"metacontroller/pkg/internal/verif/vsync"
 	"metacontroller/pkg/internal/verif/vtime"
 	"metacontroller/pkg/internal/verif/world"
 )
@@ -522,5 +523,285 @@ func TestVerifC18Race(t *testing.T) {
 			}
 			return nil
 		})
+	}
+}
+
+// ---------------------------------------------------------------------------------------------
+// Lock-level interleavings (E4): 2-3 threads issue subscription operations and object deliveries
+// concurrently; factory.go / informer.go are built against vsync, so every Lock/RLock of a thread is a
+// scheduling point. Oracle: the observable outcome equals the outcome of SOME sequential order of the
+// operations according to the reference model (a delivery = cache update, then fan-out: two model steps).
+
+type concOp struct {
+	Kind string // sub, add, remove, close, deliver
+}
+
+type concModel struct {
+	refcount int
+	cache    string // rv of object x in the current informer's cache ("" = absent)
+	subs     map[int]bool
+	handlers map[int]*[]string // thread -> events of its handler (nil = none registered)
+	regd     map[int]bool
+}
+
+func (m *concModel) clone() *concModel {
+	c := &concModel{refcount: m.refcount, cache: m.cache, subs: map[int]bool{}, handlers: map[int]*[]string{}, regd: map[int]bool{}}
+	for k, v := range m.subs {
+		c.subs[k] = v
+	}
+	for k, v := range m.handlers {
+		l := append([]string{}, (*v)...)
+		c.handlers[k] = &l
+	}
+	for k, v := range m.regd {
+		c.regd[k] = v
+	}
+	return c
+}
+
+type concStep struct {
+	thread int
+	kind   string // sub add remove close cacheSet fanout
+	rv     string
+	old    string
+}
+
+func (m *concModel) apply(s concStep) {
+	switch s.kind {
+	case "sub":
+		if m.refcount == 0 {
+			m.cache = "" // a fresh informer (controlled mode: its cache starts empty)
+		}
+		m.refcount++
+		m.subs[s.thread] = true
+	case "add":
+		l := []string{}
+		if m.cache != "" {
+			l = append(l, "resync x@"+m.cache)
+		}
+		m.handlers[s.thread] = &l
+		m.regd[s.thread] = true
+	case "remove":
+		m.regd[s.thread] = false
+	case "close":
+		m.regd[s.thread] = false
+		m.refcount--
+		m.subs[s.thread] = false
+	case "cacheSet":
+		// handled by the caller (needs to know whether an informer is running)
+	case "fanout":
+		for t, ok := range m.regd {
+			if ok {
+				l := m.handlers[t]
+				if s.old == "" {
+					*l = append(*l, "add x@"+s.rv)
+				} else {
+					*l = append(*l, "update x@"+s.old+"->x@"+s.rv)
+				}
+			}
+		}
+	}
+}
+
+func (m *concModel) outcome() string {
+	var parts []string
+	parts = append(parts, fmt.Sprintf("refcount=%d", m.refcount))
+	var ts []int
+	for t := range m.handlers {
+		ts = append(ts, t)
+	}
+	sort.Ints(ts)
+	for _, t := range ts {
+		parts = append(parts, fmt.Sprintf("h%d=%v", t, *m.handlers[t]))
+	}
+	return strings.Join(parts, " ")
+}
+
+// all sequential outcomes of the programs (threads' op lists) under the model
+func concModelOutcomes(progs [][]concOp) map[string]bool {
+	out := map[string]bool{}
+	type pos struct {
+		idx  []int
+		sub  []int // sub-step inside a deliver (0 = before cacheSet, 1 = before fanout)
+		old  []string
+		live []bool // deliver found a running informer
+		rv   int
+	}
+	var rec func(m *concModel, idx []int, half []int, pend []concStep, rv int)
+	rec = func(m *concModel, idx []int, half []int, pend []concStep, rv int) {
+		doneAll := true
+		for t := range progs {
+			if idx[t] >= len(progs[t]) {
+				continue
+			}
+			doneAll = false
+			op := progs[t][idx[t]]
+			m2 := m.clone()
+			idx2 := append([]int{}, idx...)
+			half2 := append([]int{}, half...)
+			pend2 := append([]concStep{}, pend...)
+			rv2 := rv
+			switch op.Kind {
+			case "deliver":
+				if half[t] == 0 {
+					// step 1: look the informer up and update its cache
+					if m2.refcount > 0 {
+						rv2++
+						pend2[t] = concStep{thread: t, kind: "fanout", rv: fmt.Sprint(rv2), old: m2.cache}
+						m2.cache = fmt.Sprint(rv2)
+						half2[t] = 1
+					} else {
+						idx2[t]++ // nobody runs an informer: the event is not observed
+					}
+				} else {
+					m2.apply(pend2[t])
+					half2[t] = 0
+					idx2[t]++
+				}
+			default:
+				m2.apply(concStep{thread: t, kind: op.Kind})
+				idx2[t]++
+			}
+			rec(m2, idx2, half2, pend2, rv2)
+		}
+		if doneAll {
+			out[m.outcome()] = true
+		}
+	}
+	n := len(progs)
+	rec(&concModel{subs: map[int]bool{}, handlers: map[int]*[]string{}, regd: map[int]bool{}}, make([]int, n), make([]int, n), make([]concStep, n), 0)
+	return out
+}
+
+func TestVerifC18Conc(t *testing.T) {
+	r := mc.NewReport("C18", "lock-level-interleavings")
+	defer r.Write()
+	programs := [][][]concOp{
+		{{{"sub"}, {"add"}, {"close"}}, {{"sub"}, {"add"}, {"close"}}},
+		{{{"sub"}, {"add"}}, {{"deliver"}}, {{"sub"}, {"close"}}},
+		{{{"sub"}, {"add"}, {"remove"}, {"close"}}, {{"sub"}, {"add"}, {"deliver"}}},
+		{{{"sub"}, {"close"}}, {{"sub"}, {"add"}, {"deliver"}, {"close"}}},
+	}
+	if mc.Thorough() {
+		programs = append(programs,
+			[][]concOp{{{"sub"}, {"add"}, {"close"}}, {{"sub"}, {"add"}, {"close"}}, {{"deliver"}, {"deliver"}}},
+			[][]concOp{{{"sub"}, {"add"}, {"remove"}, {"add"}, {"close"}}, {{"deliver"}}, {{"sub"}, {"close"}, {"sub"}, {"add"}}})
+	}
+	bound := 2
+	if mc.Thorough() {
+		bound = 3
+	}
+	shardI, shardN := mc.Shard()
+	for pi, progs := range programs {
+		if pi%shardN != shardI {
+			continue
+		}
+		want := concModelOutcomes(progs)
+		sub := mc.NewReport("C18", "tmp")
+		mc.ExploreSchedules(sub, bound, 0, func(s *mc.Sched) ([]func(), func(t *mc.Trace) []mc.Finding) {
+			vtime.Reset()
+			b := world.NewBase(5*time.Minute, kit.Kinds...)
+			vsync.Current = s
+			handlers := make([]*recHandler, len(progs))
+			subsH := make([]*dynamicinformer.ResourceInformer, len(progs))
+			rv := 0
+			threads := make([]func(), len(progs))
+			for ti := range progs {
+				ti := ti
+				threads[ti] = func() {
+					for _, op := range progs[ti] {
+						switch op.Kind {
+						case "sub":
+							ri, err := b.Factory.Resource("v1", "leafs")
+							if err != nil {
+								panic(err)
+							}
+							subsH[ti] = ri
+						case "add":
+							handlers[ti] = &recHandler{id: fmt.Sprintf("h%d", ti)}
+							subsH[ti].Informer().AddEventHandler(handlers[ti])
+						case "remove":
+							subsH[ti].Informer().RemoveEventHandlers()
+						case "close":
+							subsH[ti].Informer().RemoveEventHandlers()
+							subsH[ti].Close()
+						case "deliver":
+							inf := b.Factory.VerifInformers()["leafs.v1"]
+							if inf == nil {
+								continue
+							}
+							rv++
+							o := kit.Obj(kit.Leaf, "n1", "x")
+							kit.Field(o, fmt.Sprint(rv), "metadata", "resourceVersion")
+							inf.Set(world.DecodeUnstructured(o))
+						}
+					}
+				}
+			}
+			return threads, func(tr *mc.Trace) []mc.Finding {
+				vsync.Current = nil
+				var parts []string
+				open := 0
+				for ti := range progs {
+					if subsH[ti] != nil {
+						closed := false
+						for _, op := range progs[ti] {
+							if op.Kind == "close" {
+								closed = !closed
+							}
+							if op.Kind == "sub" {
+								closed = false
+							}
+						}
+						if !closed {
+							open++
+						}
+					}
+				}
+				rc := b.Factory.VerifRefCounts()["leafs.v1"]
+				parts = append(parts, fmt.Sprintf("refcount=%d", rc))
+				for ti := range progs {
+					if handlers[ti] != nil {
+						got := []string{}
+						for _, g := range handlers[ti].got {
+							got = append(got, strings.ReplaceAll(g, "Leaf/", ""))
+						}
+						parts = append(parts, fmt.Sprintf("h%d=%v", ti, got))
+					}
+				}
+				outcome := strings.Join(parts, " ")
+				r.Outcome(fmt.Sprintf("program %d: %s", pi, outcome))
+				var f []mc.Finding
+				if rc != open {
+					f = append(f, mc.Finding{Key: "C18:conc:refcount", Msg: fmt.Sprintf("program %d: refcount %d with %d open subscriptions", pi, rc, open)})
+				}
+				if (b.Factory.VerifInformers()["leafs.v1"] != nil) != (open > 0) {
+					f = append(f, mc.Finding{Key: "C18:conc:running-iff-subscribed", Msg: fmt.Sprintf("program %d: informer held=%v with %d open subscriptions", pi, b.Factory.VerifInformers()["leafs.v1"] != nil, open)})
+				}
+				if !want[outcome] {
+					f = append(f, mc.Finding{Key: "C18:conc:not-linearisable", Msg: fmt.Sprintf("program %d %v: outcome %q equals no sequential order of the operations (model allows %v)", pi, progs, outcome, mc.SortedKeys(want))})
+				}
+				// release everything still held so that informer goroutines end
+				for ti := range progs {
+					if subsH[ti] != nil {
+						mc.Recover(func() { subsH[ti].Informer().RemoveEventHandlers() })
+					}
+				}
+				return f
+			}
+		})
+		r.States += sub.States
+		r.Transitions += sub.Transitions
+		r.Evaluations += sub.Evaluations
+		r.Distinct += sub.Distinct
+		for _, v := range sub.Violations {
+			r.Violate(v.Key, v.Msg, v.Replay)
+		}
+		if !sub.Exhaustive {
+			r.Capped(fmt.Sprintf("program %d: %s", pi, sub.Bound))
+		} else {
+			r.Infof("program %d: %s, %d sequential outcomes allowed", pi, sub.Bound, len(want))
+		}
+		r.Sample(kit.M{"program": fmt.Sprintf("%v", progs), "schedules": sub.Evaluations})
 	}
 }
